@@ -52,3 +52,40 @@ Print Assumptions c06_first_refused.
 Theorem c06_report_bound : forall buf, wfbytes buf -> 2 * zlen (reported buf) <= zlen buf.
 Proof. exact reported_bound. Qed.
 Print Assumptions c06_report_bound.
+
+(* ---- the iterator AS TRANSLATED from tag_iterator.c on this run (Gen/Sites.v, tie #1 extended to control flow) ----
+   For every buffer placed anywhere in memory, with ONLY the buffer readable, the translated C statements - every guard,
+   conversion, pointer addition and load as clang typed them - run without getting stuck (no read outside the buffer, no
+   signed overflow) and leave exactly the iterator the hand-written model computes; so everything above, proved of the
+   model, holds of the code these statements were translated from. *)
+From Coq Require Import String.
+From LW Require Import Base.CExpr Gen.Sites Proofs.CodeIter.
+Local Open Scope string_scope.
+Local Open Scope Z_scope.
+
+Theorem c06_code_init_refines_model : forall buf start rho,
+  wfbytes buf -> 0 <= start -> start + zlen buf < 2 ^ 62 ->
+  let rho0 := upd (upd rho "tags_start" start) "data_len" (zlen buf) in
+  let run := exec 30 (mem_at start buf) rho0 [] body_libwifi_tag_iterator_init in
+  match tag_init (rd_strict buf) (zlen buf) with
+  | Done (Err c) => observe run = Some (Some c, [])
+  | Done (Ok it) =>
+      exists rho1, run = Returned (Some 0) rho1 [] /\
+        rho1 "it->tag_header" = start + it_hdr it /\ rho1 "it->tag_data" = start + it_data it /\
+        rho1 "it->_next_tag_header" = start + it_next it /\ rho1 "it->_frame_end" = start + it_end it
+  | _ => False
+  end.
+Proof. exact code_tag_iterator_init_refines. Qed.
+Print Assumptions c06_code_init_refines_model.
+
+Theorem c06_code_next_refines_model : forall buf start rho it,
+  wfbytes buf -> 0 < start -> start + zlen buf < 2 ^ 62 ->
+  0 <= it_next it < 2 ^ 62 -> -1 <= it_end it < zlen buf ->
+  let run := exec 30 (mem_at start buf) (it_env rho start it) [] body_libwifi_tag_iterator_next in
+  match tag_next (rd_strict buf) it with
+  | Done (it', r) =>
+      exists rho1, run = Returned (Some (match r with None => -1 | Some n => n end)) rho1 [] /\ it_fields rho1 start it'
+  | _ => False
+  end.
+Proof. exact code_tag_iterator_next_refines. Qed.
+Print Assumptions c06_code_next_refines_model.
